@@ -1014,6 +1014,76 @@ func (g *gen) sceneIface(id int) scene {
 	return scene{"iface", b.String()}
 }
 
+
+// sceneLoopCap: goroutines and plain closures created at nesting depth 0, 1 or 2 inside the body of a
+// three-clause for, a for-range or a condition-only for. They capture the loop variables (per iteration in
+// Go >= 1.22 and in Ego since BUG-30, tests/flow/for_loopvar.ego) and body-level := locals; in the
+// condition-only form, whose counter is one variable in both languages, only per-iteration copies are
+// captured. The goroutines wait at a channel gate that the launcher opens AFTER the loop has finished, so a
+// variable wrongly shared between iterations would show its final value; what they captured is folded into
+// a mutex-protected sum. The stored closures are called after the loop.
+func (g *gen) sceneLoopCap(id int) scene {
+	n, form, depth := g.rng(2, 7), g.pick(3), g.pick(3)
+	h := g.helper()
+	var b strings.Builder
+
+	g.feat("loop-capture")
+	g.feat([]string{"loop-capture:for3", "loop-capture:range", "loop-capture:cond"}[form])
+	g.feat(fmt.Sprintf("loop-capture:depth%d", depth))
+	g.feat("gate-after-loop")
+	g.feat("captured-state-under-mutex")
+	g.gor += n
+
+	k1, k2 := g.rng(2, 12), g.rng(0, 30)
+	fmt.Fprintf(&b, "\tvar mu sync.Mutex\n\tvar wg sync.WaitGroup\n\ttotal := 0\n\tlaunched := 0\n\tgate := «mk:int:%d»\n\tfs := «FUNCS»\n", []int{0, 1, 8}[g.pick(3)])
+
+	// what a closure folds in: every captured name, weighted so that a wrong binding changes the sum
+	capt := "i*1000 + w"
+	launch := func(ind, extra string) string {
+		e := capt + extra
+
+		return fmt.Sprintf("%swg.Add(1)\n%slaunched = launched + 1\n%sgo func() {\n%s\tt := <-gate\n%s\tv := %s(%s + t - 1)\n%s\tmu.Lock()\n%s\ttotal = total + v + (%s)\n%s\tmu.Unlock()\n%s\twg.Done()\n%s}()\n%sfs = append(fs, func() int {\n%s\treturn %s\n%s})\n",
+			ind, ind, ind, ind, ind, h, e, ind, ind, e, ind, ind, ind, ind, ind, e, ind)
+	}
+
+	var body string
+
+	switch depth {
+	case 0:
+		body = launch("\t\t", "")
+	case 1:
+		body = "\t\tif w % 2 == 0 {\n" + launch("\t\t\t", "") + "\t\t} else {\n" + launch("\t\t\t", " + 5") + "\t\t}\n"
+	default:
+		body = "\t\tif w >= 0 {\n\t\t\tu := w + i + 1\n\t\t\tif u % 3 != 0 {\n" + launch("\t\t\t\t", " + u*7") + "\t\t\t} else {\n" + launch("\t\t\t\t", " + u*11 + 1") + "\t\t\t}\n\t\t}\n"
+	}
+
+	switch form {
+	case 0:
+		fmt.Fprintf(&b, "\tfor i := 0; i < %d; i++ {\n\t\tw := i*%d + %d\n%s\t}\n", n, k1, k2, body)
+	case 1:
+		b.WriteString("\titems := []int{")
+
+		for q := 0; q < n; q++ {
+			if q > 0 {
+				b.WriteString(", ")
+			}
+
+			fmt.Fprintf(&b, "%d", g.rng(1, 90))
+		}
+
+		fmt.Fprintf(&b, "}\n\tfor i, x := range items {\n\t\tw := x*%d + i + %d\n%s\t}\n", k1, k2, body)
+	default:
+		// one counter variable for the whole loop in both languages: closures capture the per-iteration copy
+		fmt.Fprintf(&b, "\tc := 0\n\tfor c < %d {\n\t\ti := c\n\t\tw := i*%d + %d\n%s\t\tc = c + 1\n\t}\n", n, k1, k2, body)
+	}
+
+	// the loop is over: open the gate, then call the stored closures
+	b.WriteString("\tfor q := 0; q < launched; q++ {\n\t\tgate <- 1\n\t}\n\twg.Wait()\n\tfsum := 0\n\tfor q := 0; q < len(fs); q++ {\n\t\tfsum = fsum + fs[q]()\n\t}\n")
+	fmt.Fprintf(&b, "\tout := fmt.Sprintf(\"S%d loopcap total=%%d launched=%%d fsum=%%d\", total, launched, fsum)\n\treturn out\n", id)
+
+	return scene{"loopcap", b.String()}
+}
+
 // uniqMarker stands in the Ego text for a name prefix that the worker replaces by one that is unique
 // to the execution (the interpreter caches interface conformance per (type name, interface name)).
 const uniqMarker = "UNIQ0_"
@@ -1024,7 +1094,7 @@ func GenProgram(r *rand.Rand, id int, avoid map[string]bool) Prog {
 	ns := g.rng(1, 4)
 	var scenes []scene
 
-	makers := []func(int) scene{g.sceneMutex, g.sceneMutex, g.sceneFanIn, g.scenePool, g.scenePipeline, g.sceneNested, g.sceneRW, g.scenePingPong, g.sceneBank, g.sceneIface, g.sceneIface}
+	makers := []func(int) scene{g.sceneMutex, g.sceneMutex, g.sceneFanIn, g.scenePool, g.scenePipeline, g.sceneNested, g.sceneRW, g.scenePingPong, g.sceneBank, g.sceneIface, g.sceneIface, g.sceneLoopCap, g.sceneLoopCap, g.sceneLoopCap}
 	for i := 0; i < ns; i++ {
 		scenes = append(scenes, makers[g.pick(len(makers))](i+1))
 	}
@@ -1136,6 +1206,7 @@ func dedupe(s []string) []string {
 func renderEgo(neutral string) string {
 	s := strings.ReplaceAll(neutral, "«P»", "")
 	s = strings.ReplaceAll(s, "«U»", uniqMarker)
+	s = strings.ReplaceAll(s, "«FUNCS»", "[]any{}")
 	s = strings.ReplaceAll(s, "«MAIN»", "main()")
 	s = strings.ReplaceAll(s, "«PRINT»", "fmt.Printf")
 	// every goroutine of the program has been joined or has signalled; @wait lets the ones that
@@ -1160,6 +1231,7 @@ func renderGo(neutral string, id int) string {
 	prefix := fmt.Sprintf("p%d_", id)
 	s := strings.ReplaceAll(neutral, "«P»", prefix)
 	s = strings.ReplaceAll(s, "«U»", prefix+"u")
+	s = strings.ReplaceAll(s, "«FUNCS»", "[]func() int{}")
 	s = strings.ReplaceAll(s, "«MAIN»", prefix+"main(w io.Writer)")
 	s = strings.ReplaceAll(s, "«PRINT»(", "fmt.Fprintf(w, ")
 	s = strings.ReplaceAll(s, "«WAIT»", "")
